@@ -82,7 +82,11 @@ reg("C05",
          "non-trivial = at least one write and one removal succeeded")
 
 reg("C09",
-    gen=lambda seed, tier: P.gen_history_programs(G.Rng(seed + 9), N(tier, 60, 600), maxlen=N(tier, 14, 40), full=True),
+    gen=lambda seed, tier: (P.gen_history_programs(G.Rng(seed + 9), N(tier, 60, 600), maxlen=N(tier, 14, 40), full=True) +
+                            P.gen_shard_programs(G.Rng(seed + 91), N(tier, 8, 40))),
+    extra=lambda seed, tier, flavours: LG.leg_skeleton(
+        P.gen_shard_programs(G.Rng(seed + 92), N(tier, 4, 16)) +
+        P.gen_history_programs(G.Rng(seed + 93), N(tier, 3, 12), maxlen=10, full=True), flavours[0]),
     monitors=[P.mon_history],
     nontrivial=lambda rr: has(rr, ("remove", "remove_hash", "remove_fully", "clear"), ("ok",)),
     rule="as C05 plus remove_hash, remove_fully and clear; non-trivial = some removal succeeded")
